@@ -27,7 +27,8 @@ with identical band sets, pairs whose left and right images carry DIFFERENT band
 its mirror, (r,g,b)|(r,g) and mirror, multiband|monoband and mirror; synthetic GeoTIFFs written by write_band_pair, band
 names = rasterio band descriptions) are checked at L2 / L2p / L3 with pipelines without and with a validation step (the
 validation step makes the machine check a second time with the images swapped, which can mask a one-sided check).
-Oracle: a named band is accepted iff it is a band of the left AND of the right image.
+Oracle: a named band is accepted iff it is a band of the left AND of the right image.  Band names are whole strings
+(MULTICHAR_PAIRS: 'red' on (red, nir) is a band, 'rg' on (r, g) is not); witness classes 'multi-character-band-name/...'.
 """
 import copy
 import itertools
@@ -164,7 +165,7 @@ class Ctx:
         self.meta_multi = P.metadata(self.inp_multi)
         # image pairs whose left and right band sets differ
         self.pairs = {}
-        for name, (lb, rb) in BAND_PAIRS.items():
+        for name, (lb, rb) in list(BAND_PAIRS.items()) + list(MULTICHAR_PAIRS.items()):
             inp = write_band_pair(tmp, self.shape, name, lb, rb)
             self.pairs[name] = (inp, P.metadata(inp))
 
@@ -179,6 +180,15 @@ class Ctx:
 BAND_PAIRS = {"rgb-gbn": (["r", "g", "b"], ["g", "b", "n"]), "gbn-rgb": (["g", "b", "n"], ["r", "g", "b"]),
               "rgb-rg": (["r", "g", "b"], ["r", "g"]), "rg-rgb": (["r", "g"], ["r", "g", "b"]),
               "rgb-mono": (["r", "g", "b"], None), "mono-rgb": (None, ["r", "g", "b"])}
+
+
+# same band set on both sides, band names of several characters / band sets whose single-letter names can be
+# concatenated into a string that is NOT a band: a band name is compared as a whole, never character by character
+MULTICHAR_PAIRS = {"rednir": (["red", "nir"], ["red", "nir"]), "rg": (["r", "g"], ["r", "g"]),
+                   "redgreenblue": (["red", "green", "blue"], ["red", "green", "blue"])}
+MULTICHAR_BANDS = {"rednir": ["red", "nir", "r", "rn", "redx", "rednir"],
+                   "rg": ["r", "g", "rg", "gr", "rr"],
+                   "redgreenblue": ["green", "red", "blue", "gre", "ed", "greenred"]}
 
 
 def write_band_pair(tmpdir, shape, name, left_bands, right_bands):
@@ -577,6 +587,19 @@ def run(tier, seed):
                             drv.case(level, cls_id, {"matching_cost_method": method, "band": band}, verdict, "core",
                                      "%s/%s" % (lab, val), focus="band", part="band-pair", images=pair, pipe=pipe)
 
+        # 5c. band names of several characters (same band set left and right): the name is a band iff it equals a band
+        #     description; 'red' on (red, nir) is in the domain, 'rg' on (r, g) is not
+        for pipe in ("min", "min+validation", "long-novalidation", "long"):
+            for method in ("sad", "ssd", "zncc", "census"):
+                cls_id = "matching_cost." + method
+                for pair, (lb, _) in MULTICHAR_PAIRS.items():
+                    for band in MULTICHAR_BANDS[pair]:
+                        verdict = ACC if band in lb else REJ
+                        lab = "multi-character-band-name/" + ("band-present" if verdict == ACC else "band-absent")
+                        for level in ("L2", "L2p", "L3"):
+                            drv.case(level, cls_id, {"matching_cost_method": method, "band": band}, verdict, "core", lab,
+                                     focus="band", part="band-multichar", images=pair, pipe=pipe)
+
         # 6. the shared matching-cost schema: the verdict on B must not depend on which class was checked before
         for first, second in itertools.permutations(("sad", "census", "zncc", "ssd"), 2):
             cls_id = "matching_cost." + second
@@ -620,7 +643,9 @@ def _result(rec, tier, n_combo):
               "{4 methods} x {image pairs with different left/right band sets: rgb|gbn, gbn|rgb, rgb|rg, rg|rgb, "
               "rgb|mono, mono|rgb (synthetic GeoTIFFs)} x {every band name of either image + one of neither} x "
               "{minimal / 7-8 step pipeline, without / with a validation step} x {PandoraMachine.check_conf, "
-              "check_pipeline_section, check_configuration.check_conf}; ordered pairs of matching-cost classes "
+              "check_pipeline_section, check_configuration.check_conf}; matching-cost band names of several characters "
+              "on pairs (red,nir), (r,g), (red,green,blue) (same bands both sides; bands present, absent, "
+              "concatenations / substrings of band names) x the same methods, pipelines and levels; ordered pairs of matching-cost classes "
               "(shared schema); nodata grid on both sides; 'NaN'/'inf'/'-inf' strings"
               % ("full" if tier == "thorough" else "reduced", n_combo),
         rule="verdicts come from SPEC (statement + user-guide tables); accepted = no exception, rejected = any "
